@@ -263,6 +263,7 @@ Proof.
   destruct (getn s m) as [mn|]; [|apply TP_refl].
   destruct (getn s v) as [vn|]; [|apply TP_refl].
   destruct (is_ali (nkind mn)); [apply TP_refl|].
+  destruct (Nat.eqb m v); [apply TP_refl|].
   destruct (is_mod (nkind mn) && is_ali (nkind vn)); [apply TP_refl|].
   apply TP_retarget_all.
 Qed.
@@ -704,6 +705,7 @@ Proof.
   destruct (getn s m) as [mn|]; [|apply skel_eq_refl].
   destruct (getn s v) as [vn|]; [|apply skel_eq_refl].
   destruct (is_ali (nkind mn)); [apply skel_eq_refl|].
+  destruct (Nat.eqb m v); [apply skel_eq_refl|].
   destruct (is_mod (nkind mn) && is_ali (nkind vn)); [apply skel_eq_refl|].
   apply skel_eq_retarget_all.
 Qed.
@@ -1820,6 +1822,7 @@ Proof.
   unfold replace_prelude. rewrite Gv.
   destruct (getn s m) as [mn|] eqn:Gm; [|exact HA].
   destruct (is_ali (nkind mn)); [exact Hnone|].
+  destruct (Nat.eqb m v); [exact HA|].
   destruct (is_mod (nkind mn) && is_ali (nkind vn)); [exact HA|].
   pose proof (skel_eq_retarget_all (map snd (naliases mn)) s v) as HS.
   pose proof (retarget_all_frame v (map snd (naliases mn)) s NV) as [NV2 T2].
@@ -2159,6 +2162,7 @@ Proof.
   assert (Am : is_ali (nkind mn) = false).
   { unfold kind_of in Km. rewrite Gmn in Km. simpl in Km. destruct (nkind mn); auto. congruence. }
   rewrite Am in H.
+  destruct (Nat.eqb m v); [discriminate|].
   destruct (is_mod (nkind mn) && is_ali (nkind nd)); [discriminate|].
   destruct (retarget_all s1 (map snd (naliases mn)) v) as [s2 e1] eqn:R.
   destruct e1 as [e1|]; [discriminate|].
